@@ -267,6 +267,10 @@ impl Property for C13 {
     fn id(&self) -> &'static str {
         "C13"
     }
+    fn case_deadline_s(&self) -> Option<u64> {
+        // the statement claims termination; ordinary cases take milliseconds
+        Some(60)
+    }
     fn rule(&self) -> String {
         "tape -> program (all strata: mutual recursion through containers and generic arguments, repeated unnamed types, skipped parameters, \
          bit sequences, 1-tuples, Box fields, empty enums, unit structs, U256/I256) -> registry; for EVERY id: type_description unformatted and \
